@@ -60,7 +60,7 @@ func (p pos) String() string {
 
 type fault struct {
 	At   pos
-	Kind string // status400.., close, short-body, corrupt, substitute, empty, stall, cancel-caller, hook-fail
+	Kind string // status400.., close, short-body, corrupt, substitute, empty, stall, cancel-caller, hook-fail, hook-cancels-caller
 }
 
 func (f fault) String() string { return f.At.String() + "!" + f.Kind }
@@ -126,11 +126,15 @@ func (rn *runner) attempt(h int, faults []fault) (res result) {
 	w, p, ch := rn.w, rn.p, rn.ch
 	p.ResetLog()
 	w.ResetHooks()
-	w.FailHookAt = -1
+	w.FailHookAt, w.CancelHookAt = -1, -1
 	byPos := map[pos]string{}
 	for _, f := range faults {
 		if f.Kind == "hook-fail" {
 			w.FailHookAt = f.At.N
+			continue
+		}
+		if f.Kind == "hook-cancels-caller" {
+			w.CancelHookAt = f.At.N
 			continue
 		}
 		byPos[f.At] = f.Kind
@@ -232,7 +236,7 @@ func ints(l []int) string { return strings.Trim(fmt.Sprint(l), "[]") }
 
 func TestCheck(t *testing.T) {
 	r := vp.New("C04", "fault_enumeration",
-		"modes: {libp2p-HTTP discovery, plain HTTP} x {1, 2 addresses} x {explicit sync with queried head, with explicit head, announce-triggered} x {unsegmented, segment size 1, 2} x {nothing synced before, part of the chain synced before} on a chain of L advertisements. For each mode a fault-free reference run fixes the request positions; then every fault kind (HTTP 400/403/404/500/503, connection closed, declared length longer than body, corrupt body, substituted body, empty body, stalled response, caller cancellation, hook failure per block in segmented mode) at every position, singly (quick) and in pairs within one attempt and across attempt and retry (thorough), each followed by a fault-free retry on the same subscriber. Non-trivial: every faulted run. Distinct = distinct (mode, fault script).",
+		"modes: {libp2p-HTTP discovery, plain HTTP} x {1, 2 addresses} x {explicit sync with queried head, with explicit head, announce-triggered} x {unsegmented, segment size 1, 2} x {nothing synced before, part of the chain synced before} on a chain of L advertisements. For each mode a fault-free reference run fixes the request positions; then every fault kind (HTTP 400/403/404/500/503, connection closed, declared length longer than body, corrupt body, substituted body, empty body, stalled response, caller cancellation during a request, hook failure per block in segmented mode, caller cancellation from inside each block-hook call i.e. between requests and between segments) at every position, singly (quick) and in pairs within one attempt and across attempt and retry (thorough), each followed by a fault-free retry on the same subscriber. Non-trivial: every faulted run. Distinct = distinct (mode, fault script).",
 		"stalled responses and time-outs run in virtual time inside a synctest bubble; the horizon for 'no event will come' is 30 virtual minutes",
 		"a fault that the client masks (address fail-over, legacy path fallback) must leave all observations equal to the fault-free reference",
 		"the stream-reset retry branch needs a libp2p stream transport and is not driven",
@@ -323,6 +327,14 @@ func runMode(t *testing.T, r *vp.Recorder, m mode, thorough bool) {
 			singles = append(singles, fault{pos{"hook", -1, i}, "hook-fail"})
 		}
 	}
+	if m.Kind != "announce" {
+		// the caller cancels while a block hook runs, i.e. between requests (and,
+		// in segmented mode, between segments): the sync fails, or it had already
+		// got everything and equals the fault-free run
+		for i := range ref.hooks {
+			singles = append(singles, fault{pos{"hook", -1, i}, "hook-cancels-caller"})
+		}
+	}
 	for _, f := range singles {
 		oneScript(t, r, m, ref, []fault{f}, nil)
 	}
@@ -336,7 +348,7 @@ func runMode(t *testing.T, r *vp.Recorder, m mode, thorough bool) {
 			}
 			// pairs: keep the product tractable: second fault from a reduced kind set
 			switch singles[j].Kind {
-			case "status404", "close", "corrupt", "stall", "hook-fail":
+			case "status404", "close", "corrupt", "stall", "hook-fail", "hook-cancels-caller":
 			default:
 				continue
 			}
